@@ -59,9 +59,17 @@ mod imp {
             let p = |n: &str| d.join(n).to_string_lossy().to_string();
             let ec = ["-newkey", "ec", "-pkeyopt", "ec_paramgen_curve:prime256v1", "-nodes"];
             for ca in ["ca", "ca2", "ca3"] {
-                assert!(run(openssl().args(["req", "-x509"]).args(ec).args(["-keyout", &p(&format!("{}.key", ca)), "-out", &p(&format!("{}.pem", ca)), "-days", "3650", "-subj", &format!("/CN=Verif {} Root", ca),
-                    "-addext", "basicConstraints=critical,CA:TRUE", "-addext", "keyUsage=critical,keyCertSign,cRLSign"])), "openssl CA");
-                assert!(run(openssl().args(["x509", "-in", &p(&format!("{}.pem", ca)), "-outform", "DER", "-out", &p(&format!("{}.der", ca))])));
+                // the root handed to the clients in DER is made to end with an ASCII white-space octet (the last octet
+                // of an ECDSA signature is arbitrary): certificate data is binary and must not be "tidied"
+                for attempt in 0..2000 {
+                    assert!(run(openssl().args(["req", "-x509"]).args(ec).args(["-keyout", &p(&format!("{}.key", ca)), "-out", &p(&format!("{}.pem", ca)), "-days", "3650", "-subj", &format!("/CN=Verif {} Root", ca),
+                        "-addext", "basicConstraints=critical,CA:TRUE", "-addext", "keyUsage=critical,keyCertSign,cRLSign"])), "openssl CA");
+                    assert!(run(openssl().args(["x509", "-in", &p(&format!("{}.pem", ca)), "-outform", "DER", "-out", &p(&format!("{}.der", ca))])));
+                    let der = std::fs::read(d.join(format!("{}.der", ca))).unwrap();
+                    if ca != "ca" || attempt == 1999 || matches!(der.last(), Some(0x09 | 0x0a | 0x0c | 0x0d | 0x20)) {
+                        break;
+                    }
+                }
             }
             assert!(run(openssl().args(["req"]).args(ec).args(["-keyout", &p("srv.key"), "-out", &p("srv.csr"), "-subj", "/CN=localhost"])), "openssl csr");
             assert!(run(openssl().args(["pkcs8", "-topk8", "-nocrypt", "-in", &p("srv.key"), "-outform", "DER", "-out", &p("srv.key.der")])));
@@ -166,6 +174,8 @@ mod imp {
         let (be, client, ignore, root, cert) = (a(0), a(1), a(2), a(3), a(4));
         // how the URI names the server: DNS name (default) or IP literal
         let host_kind = if args.len() > 5 { a(5) } else { "dns".to_string() };
+        // the scheme the target is written with: ipps (default) or https
+        let scheme = if args.len() > 6 { a(6) } else { "ipps".to_string() };
         // the `ignore_tls_errors` calls made on the builder, in order
         let calls: Vec<bool> = match ignore.as_str() {
             "unset" => vec![],
@@ -178,7 +188,7 @@ mod imp {
         }
         let dir = pki().clone();
         let (port, app, stop, handle) = tls_server(&dir, &cert);
-        let uri: Uri = format!("ipps://{}:{}/ipp/print", if host_kind == "ip" { "127.0.0.1" } else { "localhost" }, port).parse().unwrap();
+        let uri: Uri = format!("{}://{}:{}/ipp/print", if scheme == "https" { "https" } else { "ipps" }, if host_kind == "ip" { "127.0.0.1" } else { "localhost" }, port).parse().unwrap();
         let root_data: Option<Vec<u8>> = match root.as_str() {
             "none" => None,
             "pem" => Some(std::fs::read(dir.join("ca.pem")).unwrap()),
@@ -216,8 +226,8 @@ mod imp {
         let mut oracle = None;
         if accepted != should {
             oracle = Some(format!(
-                "{} client on {}: server certificate `{}`, host given as {}, ignore_tls_errors calls {:?}, extra root {}: the exchange was {} but must be {}",
-                client, be, cert, host_kind, calls, root, if accepted { "accepted" } else { "rejected" }, if should { "accepted" } else { "rejected" }
+                "{} client on {}: {}:// target, server certificate `{}`, host given as {}, ignore_tls_errors calls {:?}, extra root {}: the exchange was {} but must be {}",
+                client, be, scheme, cert, host_kind, calls, root, if accepted { "accepted" } else { "rejected" }, if should { "accepted" } else { "rejected" }
             ));
         } else if !accepted && bytes > 0 {
             oracle = Some(format!("{} client on {}: the exchange was rejected but {} bytes of the request reached the server application", client, be, bytes));
